@@ -25,7 +25,7 @@ func propTable() map[string]PropSpec {
 		"data races between the per-shard goroutines of getShardInfos/applyShardsInfo (errgroup closures run synchronously)", "the HTTP/JSON transport between shard.Shard and the sidecar (Shard.APIGet/APIPost are the observation points)"}
 	t["C01"] = PropSpec{
 		ID: "C01", Pkg: coordPkg, NativeDir: "coordinator",
-		Quick:    append([]HarnessRun{H("VGC", 8, 2, 2), H("VRelief", 4, 2, 1), H("VAssign", 4, 2, 2), H("VScaleDown", 4, 2, 1), H("VCycle", 12, 1, 1, 3), H("VCycle", 4, 2, 0, 2)}, lemmas...),
+		Quick:    append([]HarnessRun{H("VGC", 8, 2, 2), H("VRelief", 4, 2, 1), H("VAssign", 4, 2, 2), H("VScaleDown", 4, 2, 1), H("VCycle", 12, 1, 1, 3), H("VCycle", 4, 2, 0, 2), H("VCycle", 6, 2, 1, 32), H("VTransfer", 4)}, lemmas...),
 		Thorough: append([]HarnessRun{H("VGC", 8, 2, 2), H("VGC", 8, 3, 1), H("VGC", 8, 3, 2), H("VRelief", 4, 2, 2), H("VRelief", 4, 3, 1), H("VAssign", 4, 2, 2), H("VAssign", 4, 3, 1), H("VScaleDown", 4, 2, 2), H("VScaleDown", 4, 3, 1), H("VCycle", 16, 1, 1, 3), H("VCycle", 8, 1, 2, 0), H("VCycle", 8, 2, 1, 0), H("VCycle", 4, 3, 0, 2)}, lemmas...),
 		Required: []string{"gc.removed", "gc.rule1", "c01.reported", "c01.removed", "relief.moved", "assign.placed", "cycle.end"},
 		Prefixes: []string{"C01."},
@@ -34,8 +34,8 @@ func propTable() map[string]PropSpec {
 	}
 	t["C04"] = PropSpec{
 		ID: "C04", Pkg: coordPkg, NativeDir: "coordinator",
-		Quick:    append([]HarnessRun{H("VRelief", 6, 2, 1), H("VAssign", 6, 2, 2), H("VScaleDown", 6, 2, 2), H("VCycle", 12, 1, 1, 0)}, lemmas...),
-		Thorough: append([]HarnessRun{H("VRelief", 6, 2, 2), H("VRelief", 6, 3, 1), H("VAssign", 6, 2, 2), H("VAssign", 6, 3, 2), H("VScaleDown", 6, 2, 2), H("VScaleDown", 6, 3, 1), H("VCycle", 12, 1, 1, 0), H("VCycle", 8, 1, 2, 0), H("VCycle", 8, 2, 1, 8), H("VCycle", 8, 2, 2, 8)}, lemmas...),
+		Quick:    append([]HarnessRun{H("VTransfer", 4), H("VRelief", 6, 2, 1), H("VAssign", 6, 2, 2), H("VScaleDown", 6, 2, 2), H("VCycle", 12, 1, 1, 0)}, lemmas...),
+		Thorough: append([]HarnessRun{H("VTransfer", 4), H("VRelief", 6, 2, 2), H("VRelief", 6, 3, 1), H("VAssign", 6, 2, 2), H("VAssign", 6, 3, 2), H("VScaleDown", 6, 2, 2), H("VScaleDown", 6, 3, 1), H("VCycle", 12, 1, 1, 0), H("VCycle", 8, 1, 2, 0), H("VCycle", 8, 2, 1, 8), H("VCycle", 8, 2, 2, 8)}, lemmas...),
 		Required: []string{"relief.placed", "assign.placed", "scaledown.placed", "c04.placed", "c04.scalecall"},
 		Prefixes: []string{"C04."},
 		Bounds:   "one lemma per placement site (head relief, process relief, first assignment, scale-down transfer) with S<=2, K<=2 (thorough S<=3); whole cycles at (1,1) (thorough + (1,2), and (2,1), (2,2) with all shards in sync); with and without a head-series limit",
@@ -53,7 +53,7 @@ func propTable() map[string]PropSpec {
 	}
 	t["C07"] = PropSpec{
 		ID: "C07", Pkg: coordPkg, NativeDir: "coordinator",
-		Quick:    []HarnessRun{H("VScaleDown", 6, 2, 1), H("VScaleDown", 6, 3, 1), H("VCycle", 12, 1, 1, 0), H("VCycle", 8, 2, 0, 0)},
+		Quick:    []HarnessRun{H("VScaleDown", 6, 2, 1), H("VScaleDown", 6, 3, 1), H("VCycle", 12, 1, 1, 0), H("VCycle", 8, 2, 0, 0), H("VCycle", 6, 2, 1, 32)},
 		Thorough: []HarnessRun{H("VScaleDown", 6, 2, 2), H("VScaleDown", 6, 3, 1), H("VScaleDown", 6, 3, 2), H("VCycle", 12, 1, 1, 2), H("VCycle", 8, 1, 2, 0), H("VCycle", 8, 2, 1, 0), H("VCycle", 4, 3, 0, 0), H("VCycle", 4, 4, 0, 8)},
 		Required: []string{"scaledown.end", "c07.scalecall", "scaledown.moved"},
 		Prefixes: []string{"C07."},
@@ -63,7 +63,7 @@ func propTable() map[string]PropSpec {
 	}
 	t["C08"] = PropSpec{
 		ID: "C08", Pkg: coordPkg, NativeDir: "coordinator",
-		Quick:    []HarnessRun{H("VCycle", 12, 1, 1, 7), H("VCycle", 6, 2, 0, 4), H("VAssign", 4, 2, 2), H("VRelief", 4, 2, 1), H("VScaleDown", 4, 2, 1)},
+		Quick:    []HarnessRun{H("VCycle", 12, 1, 1, 7), H("VCycle", 6, 2, 0, 4), H("VCycle", 6, 2, 1, 32), H("VAssign", 4, 2, 2), H("VRelief", 4, 2, 1), H("VScaleDown", 4, 2, 1), H("VScaleDown", 4, 3, 1)},
 		Thorough: []HarnessRun{H("VCycle", 12, 1, 1, 7), H("VCycle", 6, 1, 2, 4), H("VCycle", 6, 2, 1, 4), H("VAssign", 4, 3, 2), H("VRelief", 4, 2, 2), H("VRelief", 4, 3, 1), H("VScaleDown", 4, 3, 1)},
 		Required: []string{"c08.unready", "c08.statusfail", "c08.runtimefail", "c08.hashdiffers", "c08.outofsync", "c08.insync", "c08.heldoutofsync", "assign.placed"},
 		Prefixes: []string{"C08."},
@@ -94,7 +94,7 @@ func propTable() map[string]PropSpec {
 		ID: "C10", Pkg: sidePkg, NativeDir: "sidecar",
 		Quick:    []HarnessRun{{Entry: "VTMStep", Args: []int{2}, Cosim: 12}, {Entry: "VTMRestart", Args: []int{2}, Cosim: 6}},
 		Thorough: []HarnessRun{{Entry: "VTMStep", Args: []int{2}, Cosim: 16}, {Entry: "VTMStep", Args: []int{3}, Cosim: 16}, {Entry: "VTMRestart", Args: []int{3}, Cosim: 8}},
-		Required: []string{"tm.kept", "tm.new", "tm.becomes.idle", "tm.stays.idle", "restart.end"},
+		Required: []string{"tm.kept", "tm.new", "tm.becomes.idle", "tm.stays.idle", "restart.end", "restart.idle"},
 		Prefixes: []string{"C10."},
 		Bounds:   "one inductive step of UpdateTargets/updateStatus/updateIdleState/doCallbacks/saveTargets + Service.runtimeInfo from an arbitrary state satisfying the representation invariant, over a universe of K<=2 hashes (thorough 3) and 2 jobs, any request (adds, removals, state flips, repeats, empty, moves between jobs, an empty job list), failing callback; base case and restart through Load on the abstract store",
 		Assume:   sideAssume,
